@@ -317,7 +317,7 @@ func (c02) Enumerate(tier string, seed int64, yield func(string, core.Case) bool
 		n = 15000
 	}
 	for _, weighted := range []bool{false, true} {
-		if !enumMixedCatalogue(seed, n, weighted, func(name string, p Prob) bool { return yield(name[:2], ProbCase{P: p, Dev: 1}) }) {
+		if !enumMixedCatalogue(seed, n, weighted, func(name string, p Prob) bool { return yield(name, ProbCase{P: p, Dev: 1}) }) {
 			return
 		}
 	}
